@@ -217,6 +217,25 @@ func decodeStructValue(field reflect.Value, fieldType reflect.StructField, value
 		}
 		field.SetInt(int64(value))
 		return nil
+	case reflect.Uint:
+		if value == "" {
+			field.SetUint(0)
+			return nil
+		}
+		value, err := strconv.ParseUint(value, 10, 0)
+		if err != nil {
+			return err
+		}
+		field.SetUint(value)
+		return nil
+	case reflect.Ptr:
+		/* the encoder writes what a pointer points to; read it back the same way */
+		target := reflect.New(field.Type().Elem())
+		if err := decodeStructValue(target.Elem(), fieldType, value); err != nil {
+			return err
+		}
+		field.Set(target)
+		return nil
 	case reflect.Slice:
 		return decodeStructValueSlice(field, fieldType, value)
 	case reflect.Struct:
